@@ -75,6 +75,7 @@ impl HyraxPC {
 //@end
 
 //@fn id=hyrax.check file=poly-commit/src/hyrax/mod.rs scope="impl<G, P> PolynomialCommitment<G::ScalarField, P> for HyraxPC<G, P>" name=check props=C10,C02,C03,C11,C17
+    #[verifier::loop_isolation(false)]
     fn check<'a>(vk: &HyraxUniversalParams, commitments: Vec<&'a LabeledCommitment<HyraxCommitment>>, point: &'a Vec<Fr>, _values: Vec<Fr>, proof: &Vec<HyraxProof>, sponge: &mut Sponge, _rng: Option<&mut Rng>) -> (res: Result<bool, Error>)
     requires
         point@.len() < 128,
@@ -87,6 +88,7 @@ impl HyraxPC {
             && hyrax_eq14(vk, hyrax_r(fviews(point@)), &proof@[i], hyrax_chal(old(sponge).st@, vk, commitments@, fviews(point@), proof@, i as nat))
             && hyrax_eq13(vk, commitments@[i].commitment.row_coms@, hyrax_l(fviews(point@)), &proof@[i], hyrax_chal(old(sponge).st@, vk, commitments@, fviews(point@), proof@, i as nat))),   // name=hyrax.check.accept_implies_eq13_eq14 props=C10,C02
         (res is Ok && res->Ok_0) ==> final(sponge).st@ == hyrax_state(old(sponge).st@, vk, commitments@, fviews(point@), proof@, min(commitments@.len(), proof@.len())),   // name=hyrax.check.absorb_squeeze_schedule props=C11
+        (point@.len() % 2 == 0 && proof@.len() != commitments@.len()) ==> res is Err,   // name=hyrax.check.err_if_proof_count_differs props=C03,C17
         (res is Ok && res->Ok_0) ==> proof@.len() >= commitments@.len(),   // name=hyrax.check.accept_implies_a_proof_for_every_commitment props=C03 finding=F8
         (res is Ok && res->Ok_0) ==> (forall|i: int| 0 <= i < min(commitments@.len(), _values@.len()) ==> hyrax_value_bound(vk, (#[trigger] _values@[i])@, &proof@[i])),   // name=hyrax.check.accept_implies_claimed_value_bound_to_com_eval props=C02,C10 finding=F1
 //@body
@@ -98,8 +100,13 @@ impl HyraxPC {
             assert(fviews(point_lower@) =~= rev_seq(fviews(point@)).subrange((point@.len() / 2) as int, point@.len() as int));
             assert(fviews(point_upper@) =~= rev_seq(fviews(point@)).subrange(0, (point@.len() / 2) as int));
         }
+//@before /let commitments: Vec<_> = commitments\.into_iter\(\)\.collect\(\);/
+        let ghost commitments0 = commitments@;
+//@after /let commitments: Vec<_> = commitments\.into_iter\(\)\.collect\(\);/
+        proof { assert(commitments@ == commitments0); }
 //@loop 1 kw=for name=it
-            invariant it.index@ <= min(commitments@.len(), proof@.len()), point@.len() < 128, n == point@.len(), n % 2 == 0, vk.com_key@.len() >= 1,
+            invariant commitments@ == commitments0, commitments@.len() == proof@.len(),
+                it.index@ <= min(commitments@.len(), proof@.len()), point@.len() < 128, n == point@.len(), n % 2 == 0, vk.com_key@.len() >= 1,
                 fviews(l@) == hyrax_l(fviews(point@)), fviews(r@) == hyrax_r(fviews(point@)),
                 sponge.st@ == hyrax_state(old(sponge).st@, vk, commitments@, fviews(point@), proof@, it.index@ as nat),
                 forall|i: int| 0 <= i < it.index@ ==>
